@@ -67,7 +67,7 @@ func setupC20(env *simEnv) {
 		if w.Op.Kind != "wait" || simrt.RaceEnabled {
 			return
 		}
-		simrt.Probe("c20.wait-returned")
+		probe("c20.wait-returned")
 		sn := internal.Snapshot(rd.Store)
 		res := residentMap(sn)
 		conc := "single-wait"
@@ -82,7 +82,7 @@ func setupC20(env *simEnv) {
 			}
 		}
 		if conc == "concurrent-waits" {
-			simrt.Probe("c20.waits-overlapped")
+			probe("c20.waits-overlapped")
 		}
 		// last completed write per key, and keys written again meanwhile
 		last := map[int]Rec{}
@@ -121,7 +121,7 @@ func setupC20(env *simEnv) {
 			if busy[key] {
 				continue
 			}
-			simrt.Probe("c20.barrier-key-checked")
+			probe("c20.barrier-key-checked")
 			e := res[key]
 			switch {
 			case l.Op.Kind == "set" && l.Ok:
@@ -150,7 +150,7 @@ func setupC20(env *simEnv) {
 			}
 		}
 		if !othersWriting && !rd.Sc.Cache.Pool {
-			simrt.Probe("c20.quiet-accounting-checked")
+			probe("c20.quiet-accounting-checked")
 			errs := append(residentErrors(sn), accountingErrors(sn, true)...)
 			if len(errs) > 0 {
 				rd.violate("C20/returned-early/"+conc+",accounting", fmt.Sprintf("Wait (client %d) returned with no writer active but the accounting is off: %v", client, errs))
